@@ -479,3 +479,49 @@ Fixpoint cnt_name (n : cname) (m : list (cname * inst)) : nat :=
    related-resource requests of its syncs, delete *)
 Definition lifetime (n : cname) (s : spec) (crd : crd_lookup) (rs : list rule) : list event :=
   (Reconcile n (LFound s crd) :: map (Related n) rs ++ [Reconcile n LNotFound])%list.
+
+(* ---- hook client metrics (pkg/metrics/http.go getOrCreateMetrics) ------------------------
+   Every (re)start of a hosted controller builds its webhook clients through
+   InstrumentClientWithConstLabels; the collectors of one (controller, hook type, url)
+   are created and registered once and found again in metricsCache on every later start. *)
+
+Definition mkey := string.   (* "<controller>/<hook type>/<url>": the cache key; it also fixes the collector's descriptors *)
+
+Inductive mevent :=
+| MReg (k : mkey)            (* InstrumentClientWithConstLabels for k *)
+| MElapse.                   (* any amount of time passes (cache entries with a finite life are gone) *)
+
+Record mstate := mkM {
+  m_cache : list (mkey * Z);   (* metricsCache: key -> collector (numbered in order of creation); SetNoExpiration *)
+  m_registry : list mkey;      (* what the prometheus registerer holds *)
+  m_next : Z
+}.
+
+Definition minit : mstate := mkM [] [] 0.
+
+Fixpoint mfind (k : mkey) (m : list (mkey * Z)) : option Z :=
+  match m with
+  | [] => None
+  | (k', v) :: m' => if String.eqb k k' then Some v else mfind k m'
+  end.
+
+(* outcome, and the collector handed to the http client *)
+Definition mstep (st : mstate) (e : mevent) : mstate * outcome * option Z :=
+  match e with
+  | MElapse => (st, ROk, None)            (* entries never expire *)
+  | MReg k =>
+      match mfind k (m_cache st) with
+      | Some id => (st, ROk, Some id)
+      | None =>
+          let id := m_next st in
+          (* the new instrumentation is cached before it is registered *)
+          let cache' := (m_cache st ++ [(k, id)])%list in
+          if memb k (m_registry st)
+          then (mkM cache' (m_registry st) (id + 1), RErr, None)    (* duplicate collector registration *)
+          else (mkM cache' (k :: m_registry st) (id + 1), ROk, Some id)
+      end
+  end.
+
+Definition mrun (st : mstate) (h : list mevent) : mstate := fold_left (fun s e => fst (fst (mstep s e))) h st.
+Definition moutcome_of (r : mstate * outcome * option Z) : outcome := snd (fst r).
+Definition mcollector_of (r : mstate * outcome * option Z) : option Z := snd r.
